@@ -64,6 +64,22 @@ CHECKS = {
         "{False, True, int}.",
         "DESIGN.md section 4, C04",
     ),
+    "C06": (
+        "exploration",
+        "differential property-based testing (Hypothesis): crop path vs "
+        "direct path in a twin directory, plus the independent by-label "
+        "oracle of C03",
+        "Generated runner descriptions, inputs, batchings, grow orders and "
+        "reload points for the four farmer kinds; the reaped object must "
+        "equal the direct run's (coordinates, values, attrs, after aligning "
+        "dimension order), be the farmer's last result, and leave the "
+        "Harvester/Sampler file equal to the one a direct harvest/sample "
+        "leaves - including the same refusal when the policy rejects a "
+        "merge.",
+        "Constants live on the Runner; the sampler's numpy RNG is seeded "
+        "identically on both paths.",
+        "DESIGN.md section 4, C06",
+    ),
     "C07": (
         "exploration",
         "exhaustive enumeration of (N, batch spec, realisation, shuffle, "
